@@ -1,9 +1,208 @@
-/- Driver handlers, group Port (stub; filled in by the group's model). -/
+/-
+  Driver handlers, group Port: C06 (port impedance, Thevenin/Norton) and C09 (multi-frequency
+  steady state).  Model functions come from CC/Model/{Port,MultiFreq}.lean, the executable
+  Spec of C06 from CC/Spec/Port.lean (+ the tableau of DSpec.lean).  Certificates
+  (inverses, solutions) are found by the unverified elimination of LinAlg.lean and checked
+  exactly with the model's own products before they are used.
+-/
 import CC.Driver.Json
 import CC.Driver.LinAlg
+import CC.Driver.DSpec
+import CC.Model.Port
+import CC.Model.MultiFreq
+import CC.Spec.Port
 namespace CC
 open Lean
 
-def handlersPort : List (String × Handler) := []
+/-! ### certificates -/
+
+/-- exact inverse, returned only when `Y·Z = 1` was checked -/
+def invChecked (Y : List (List GQ)) : Option (List (List GQ)) :=
+  match inverseExact Y with
+  | none => none
+  | some Z => if matMul Y Z = identity Y.length then some Z else none
+
+/-- exact solution, returned only when `A·x = b` was checked -/
+def solveChecked (A : List (List GQ)) (b : List GQ) : Option (List GQ) :=
+  match solveExact A b with
+  | none => none
+  | some x => if matVec A x = b then some x else none
+
+/-! ### C06: model -/
+
+def h_portPre : Handler := fun j => do
+  let N ← getNet (← j.getObjVal? "net")
+  let n1 ← getStr j "n1"
+  let n2 ← getStr j "n2"
+  match N.portPre n1 n2 with
+  | .error e => pure (Json.mkObj [("err", e.tag)])
+  | .ok .early => pure (Json.mkObj [("early", true)])
+  | .ok (.mat N' Y a) =>
+    pure (Json.mkObj [("Y", jsonMat Y), ("nodes", jsonStrs N'.nodes), ("node1", Json.str a),
+      ("zero", Json.str N'.zero), ("unpruned", jsonMat N'.nodeAdmittance)])
+
+def h_portZ : Handler := fun j => do
+  let N ← getNet (← j.getObjVal? "net")
+  pure (jsonExcept jsonGQ (N.openCircuitImpedance invChecked (← getStr j "n1") (← getStr j "n2")))
+
+def h_elemZ : Handler := fun j => do
+  let N ← getNet (← j.getObjVal? "net")
+  pure (jsonExcept jsonGQ (N.elementImpedance invChecked (← getStr j "id")))
+
+def h_ocVoltage : Handler := fun j => do
+  let N ← getNet (← j.getObjVal? "net")
+  pure (jsonExcept jsonGQ (N.openCircuitVoltage solveChecked (← getStr j "n1") (← getStr j "n2")))
+
+def h_scCurrent : Handler := fun j => do
+  let N ← getNet (← j.getObjVal? "net")
+  pure (jsonExcept jsonGQ (N.shortCircuitCurrent invChecked solveChecked (← getStr j "n1") (← getStr j "n2")))
+
+def h_equivalents : Handler := fun j => do
+  let N ← getNet (← j.getObjVal? "net")
+  let n1 ← getStr j "n1"
+  let n2 ← getStr j "n2"
+  let th := N.theveninEquivalent invChecked solveChecked n1 n2
+  let no := N.nortonEquivalent invChecked solveChecked n1 n2
+  pure (Json.mkObj [
+    ("thevenin", jsonExcept (fun (t : TheveninEq GQ) => Json.mkObj [("U", jsonGQ t.U), ("Z", jsonGQ t.Z)]) th),
+    ("norton", jsonExcept (fun (t : NortonEq GQ) => Json.mkObj [("I", jsonGQ t.I), ("Y", jsonGQ t.Y)]) no)])
+
+/-- op `port_sweep`: the sweep wrappers of Circuit/impedance.py over the implementation's own
+per-frequency networks; `id` given ⇒ element impedance, else the node pair -/
+def h_portSweep : Handler := fun j => do
+  let nets ← (← getArr j "nets").toList.mapM getNet
+  let f : Net String GQ → Except Err GQ ←
+    match (getStr j "id").toOption with
+    | some id => pure (fun (N : Net String GQ) => N.elementImpedance invChecked id)
+    | none => do
+      let n1 ← getStr j "n1"
+      let n2 ← getStr j "n2"
+      pure (fun (N : Net String GQ) => N.openCircuitImpedance invChecked n1 n2)
+  let dc : Json := match nets with
+    | N0 :: _ => jsonExcept jsonGQ (dcResistance (fun z : GQ => GQ.ofRat z.re) f N0)
+    | [] => Json.null
+  pure (Json.mkObj [("sweep", jsonExcept jsonVec (sweep f nets)), ("dc", dc)])
+
+/-! ### C06: executable Spec (rank-general, because a port can be determined in a network that
+is not well-posed as a whole — e.g. some *other* node hangs on open branches only) -/
+
+/-- Gauss–Jordan on `[A | b]` without assuming full rank; returns the reduced rows and the
+pivot positions `(row, column)` -/
+def rrefGeneral (ncols : Nat) (M0 : Array (Array GQ)) : Array (Array GQ) × List (Nat × Nat) := Id.run do
+  let mut M := M0
+  let rows := M.size
+  let mut piv : List (Nat × Nat) := []
+  let mut r := 0
+  for c in [0:ncols] do
+    if r < rows then
+      let mut p := rows
+      for k in [r:rows] do
+        if p == rows && (M[k]!)[c]! ≠ 0 then p := k
+      if p < rows then
+        let tmp := M[r]!
+        M := M.set! r M[p]!
+        M := M.set! p tmp
+        let pv := (M[r]!)[c]!
+        let rowr := M[r]!.map (· / pv)
+        M := M.set! r rowr
+        for k in [0:rows] do
+          if k ≠ r then
+            let f := (M[k]!)[c]!
+            if f ≠ 0 then
+              M := M.set! k ((M[k]!.zip rowr).map fun (x, y) => x - f * y)
+        piv := piv ++ [(r, c)]
+        r := r + 1
+  return (M, piv)
+
+/-- all solutions of `A x = b` agree on the linear functional `c`?  Returns
+`(consistent, determined, value)`. -/
+def functionalOnSolutions (A : List (List GQ)) (b : List GQ) (c : List GQ) : Bool × Bool × GQ :=
+  let n := c.length
+  let M : Array (Array GQ) := ((A.zip b).map fun (r, v) => (r ++ [v]).toArray).toArray
+  let (R, piv) := rrefGeneral n M
+  let consistent := R.all fun row => !((List.range n).all fun k => row[k]! = 0) || row[n]! = 0
+  -- reduce c against the pivot rows
+  let red : List GQ := piv.foldl (fun acc (r, col) =>
+    let f := acc.getD col 0
+    if f = 0 then acc else (acc.zip ((R[r]!).toList.take n)).map fun (x, y) => x - f * y) c
+  let determined := red.all (· = 0)
+  let value := (piv.map fun (r, col) => c.getD col 0 * (R[r]!)[n]!).sum
+  (consistent, determined, value)
+
+def freshId (ids : List String) (base : String) : String := Id.run do
+  let mut s := base
+  for _ in [0:ids.length + 1] do
+    if s ∈ ids then s := s ++ "'"
+  return s
+
+/-- op `port_spec`: `PortZ N a b` of CC/Spec/Port.lean, decided exactly.  `defined` = the probe
+network is solvable and every solution has the same port voltage `z`; `wellposed` = the
+probe network has exactly one solution. -/
+def h_portSpec : Handler := fun j => do
+  let N ← getNet (← j.getObjVal? "net")
+  let a ← getStr j "n1"
+  let b ← getStr j "n2"
+  let pid := freshId N.ids "__probe__"
+  let P := probeNet N pid a b (1 : GQ)
+  let (A, rhs) := tableau P
+  let labels := (dedupL P.allLabels).filter (· ≠ P.zero)
+  let nb := P.branches.length
+  let c : List GQ := (labels.map fun n =>
+      (if n = a then (1 : GQ) else 0) - (if n = b then (1 : GQ) else 0)) ++ (List.range nb).map fun _ => (0 : GQ)
+  let (consistent, determined, z) := functionalOnSolutions A rhs c
+  let wp := (solveExact A rhs).isSome
+  pure (Json.mkObj [("defined", consistent && determined), ("consistent", consistent),
+    ("determined", determined), ("wellposed", wp), ("z", jsonGQ z)])
+
+/-! ### C09 -/
+
+def getOptRat (j : Json) (k : String) : Except String (Option Rat) :=
+  match j.getObjVal? k with
+  | .error _ => pure none
+  | .ok .null => pure none
+  | .ok v => do pure (some (← getRat v))
+
+def getRats (j : Json) (k : String) : Except String (List Rat) := do
+  (← getArr j k).toList.mapM getRat
+
+def jsonRats (l : List Rat) : Json := Json.arr (l.map jsonRat).toArray
+
+def h_freqComponents : Handler := fun j => do
+  let comps ← (← getArr j "comps").toList.mapM fun c => do
+    pure ({ ty := ← getStr c "ty", w := ← getOptRat c "w" } : FComp)
+  let wmax ← getRatK j "wmax"
+  pure (jsonExcept jsonRats (frequencyComponents comps wmax))
+
+/-- op `active_index`: for every source × every analysed frequency, the harmonic the source
+contributes there (`null` = replaced by a short / an open circuit) -/
+def h_activeIndex : Handler := fun j => do
+  let srcs ← (← getArr j "srcs").toList.mapM fun s => do
+    pure ({ periodic := ← getBool s "periodic", w := ← getRatK s "w" } : Src)
+  let ws ← getRats j "ws"
+  let wres ← getRatK j "wres"
+  pure (Json.arr (srcs.map fun s => Json.arr (ws.map fun w =>
+    match s.activeIndex w wres with
+    | some n => Json.num (Lean.JsonNumber.fromInt n)
+    | none => Json.null).toArray).toArray)
+
+def h_timeValue : Handler := fun j => do
+  let lines ← (← getArr j "lines").toList.mapM fun l => do
+    match l with
+    | .arr #[x, c, s] => pure ((← getGQ x), (← getRat c), (← getRat s))
+    | _ => throw "line = [X, cos, sin] expected"
+  pure (Json.mkObj [("value", jsonRat (timeValue lines))])
+
+def h_twoSided : Handler := fun j => do
+  let ws ← getRats j "ws"
+  let X ← getVec (← j.getObjVal? "X")
+  pure (Json.mkObj [("as_written", jsonExcept jsonRats (twoSidedAsWritten ws)),
+    ("w", jsonRats (mirrorW ws)), ("X", jsonVec (mirrorX X))])
+
+def handlersPort : List (String × Handler) :=
+  [("port_pre", h_portPre), ("port_z", h_portZ), ("elem_z", h_elemZ), ("oc_voltage", h_ocVoltage),
+   ("sc_current", h_scCurrent), ("equivalents", h_equivalents), ("port_sweep", h_portSweep),
+   ("port_spec", h_portSpec),
+   ("freq_components", h_freqComponents), ("active_index", h_activeIndex),
+   ("time_value", h_timeValue), ("two_sided", h_twoSided)]
 
 end CC
